@@ -465,6 +465,98 @@ def fiber_switch_context_scenarios():
     return out
 
 
+def cross_module_scenarios():
+    """control comes BACK into a module from code of another module in every way the VM has - an exception landing on a
+    handler, a fiber yielding / finishing, a function returning, an import completing or failing - and the code that
+    continues must be running in its own module again: it reads, writes and defines ITS globals, and closures it creates
+    belong to it."""
+    out = []
+    transfers = ["throw-from-lib-fn", "builtin-error-in-lib-fn", "throw-through-lib-finally", "callback-throws-caught-in-lib",
+                 "lib-fiber-yields", "lib-fiber-finishes", "lib-fn-returns", "lib-body-throws", "lib-method-throws", "nested-lib-throw"]
+    afters = ["read-global", "write-global", "define-global", "make-closure", "call-own-fn"]
+    for transfer, after, place in itertools.product(transfers, afters, ("catch", "finally", "after")):
+        if place in ("catch", "finally") and transfer in ("lib-fiber-yields", "lib-fiber-finishes", "lib-fn-returns"):
+            continue
+        lb = Builder(first_decl=5000)
+        lb.var("name", lit("lib"))
+        lb.var("count", lit(100))
+        lb.fn("boom", []); lb.throw(lit("from lib")); lb.end()
+        lb.fn("bad_index", []); lb.ret(idx(vec(lit(1)), lit(9))); lb.end()
+        lb.fn("through_finally", []); lb.try_(); lb.expr(call(lb.v("boom"))); lb.finally_(); lb.expr(lb.assign("count", bin_("+", lb.v("count"), lit(1)))); lb.end(); lb.end()
+        lb.fn("run_callback", ["cb"]); lb.try_(); lb.expr(call(lb.v("cb"))); lb.catch("le"); lb.expr(lb.assign("count", bin_("+", lb.v("count"), lit(1)))); lb.ret(tup(lit("lib caught"), lb.v("le"), lb.v("name"), lb.v("count"))); lb.end(); lb.ret(lit("callback returned")); lb.end()
+        lb.fn("gen", []); lb.expr(inv(lb.v("Fiber"), "yield", tup(lit("yield from"), lb.v("name")))); lb.ret(tup(lit("done in"), lb.v("name"))); lb.end()
+        lb.fn("make_fiber", []); lb.ret(inv(lb.v("Fiber"), "new", lb.v("gen"))); lb.end()
+        lb.fn("plain", []); lb.ret(tup(lit("plain in"), lb.v("name"))); lb.end()
+        lb.class_("Thing", ctor="new"); lb.method("explode", []); lb.throw(tup(lit("method in"), lb.v("name"))); lb.end(); lb.end()
+        lb.fn("relay", []); lb.import_("lib2", "l2"); lb.ret(inv(lb.v("l2"), "boom2")); lb.end()
+        l2 = Builder(first_decl=7000)
+        l2.var("name", lit("lib2"))
+        l2.fn("boom2", []); l2.throw(tup(lit("from"), l2.v("name"))); l2.end()
+        fb = Builder(first_decl=8000)
+        fb.var("name", lit("failing"))
+        fb.print(lit("failing body"))
+        fb.throw(lit("failing while loading"))
+        b = Builder()
+        b.var("name", lit("main"))
+        b.var("count", lit(0))
+        b.fn("own", []); b.ret(tup(lit("own fn in"), b.v("name"))); b.end()
+        b.import_("lib", "lib")
+        b.var("made", lit(None))
+
+        def go():
+            if transfer == "throw-from-lib-fn":
+                b.expr(inv(b.v("lib"), "boom"))
+            elif transfer == "builtin-error-in-lib-fn":
+                b.expr(inv(b.v("lib"), "bad_index"))
+            elif transfer == "throw-through-lib-finally":
+                b.expr(inv(b.v("lib"), "through_finally"))
+            elif transfer == "callback-throws-caught-in-lib":
+                b.print(inv(b.v("lib"), "run_callback", b.lam([], lambda: bin_("-", b.v("name"), lit(1)))))
+            elif transfer == "lib-fiber-yields":
+                b.var("fb", inv(b.v("lib"), "make_fiber")); b.print(inv(b.v("fb"), "call"))
+            elif transfer == "lib-fiber-finishes":
+                b.var("fb", inv(b.v("lib"), "make_fiber")); b.expr(inv(b.v("fb"), "call")); b.print(inv(b.v("fb"), "call"))
+            elif transfer == "lib-fn-returns":
+                b.print(inv(b.v("lib"), "plain"))
+            elif transfer == "lib-body-throws":
+                b.import_("failing", "fl")
+            elif transfer == "lib-method-throws":
+                b.expr(inv(inv(get(b.v("lib"), "Thing"), "new"), "explode"))
+            else:
+                b.expr(inv(b.v("lib"), "relay"))
+
+        def then():
+            if after == "read-global":
+                b.print(tup(lit("now in"), b.v("name"), b.v("count")))
+            elif after == "write-global":
+                b.expr(b.assign("count", bin_("+", b.v("count"), lit(1)))); b.expr(b.assign("name", lit("main (rewritten)")))
+            elif after == "define-global":
+                b.expr(b.assign("made", b.lam([], lambda: tup(lit("lambda sees"), b.v("name")))))
+            elif after == "make-closure":
+                b.expr(b.assign("made", b.lam([], lambda: tup(lit("closure in"), b.v("name"), b.v("count")))))
+            else:
+                b.print(call(b.v("own")))
+
+        raising = transfer not in ("callback-throws-caught-in-lib", "lib-fiber-yields", "lib-fiber-finishes", "lib-fn-returns")
+        if place == "catch":
+            b.try_(); go(); b.catch("e"); b.print(tup(lit("caught"), b.v("e"))); then(); b.end()
+        elif place == "finally":
+            b.try_(); b.try_(); go(); b.finally_(); then(); b.end(); b.catch("e2"); b.print(tup(lit("outer caught"), b.v("e2"))); b.end()
+        else:
+            if raising:
+                b.try_(); go(); b.catch("e"); b.print(lit("caught")); b.end()
+            else:
+                go()
+            then()
+        b.print(tup(b.v("name"), b.v("count"), get(b.v("lib"), "name"), get(b.v("lib"), "count")))
+        b.if_(bin_("!=", b.v("made"), lit(None))); b.print(call(b.v("made"))); b.end()
+        b.print(call(b.v("own")))
+        b.print(inv(b.v("lib"), "plain"))
+        mods = [{"path": "lib", "prog": lb.toks}, {"path": "lib2", "prog": l2.toks}, {"path": "failing", "prog": fb.toks}]
+        out.append(("xmod:%s:%s:%s" % (transfer, after, place), {"snips": [{"prog": b.toks}], "mods": mods}))
+    return out
+
+
 # ---------------------------------------------------------------------------------------------------
 # C09: fibers with bodies drawn from a small action set, under a main schedule of calls
 def get(o, m):
